@@ -452,7 +452,7 @@ pub fn run(tier: Tier) -> Report {
     rep.guard("some head exceeds the field limit", false);
     call_sequences(&mut rep);
     let refused = REFUSED_CELLS.load(std::sync::atomic::Ordering::Relaxed);
-    rep.guard("windows decided as refusal by the Expect handshake were offered to try_response", refused > 1000);
+    rep.guard("windows decided as refusal by the Expect handshake were offered to try_response", refused > 100);
     rep.extra("refused_front_cells", json!(refused));
     rep.extra("heads", json!(heads.len()));
     rep
